@@ -154,6 +154,14 @@ def run(tier, seed):
         for v in verdicts.values():
             tws[v.get('tw')] = tws.get(v.get('tw'), 0) + 1
         o.extra['treewidth_histogram'] = {str(k): v for k, v in sorted(tws.items(), key=lambda x: str(x))}
+        o.extra['min_fill_machine_drift'] = sum(1 for v in verdicts.values() if v.get('mfdrift', 0) != 0)
+        # R3: the nondeterministic min-fill machine (spec/MinFill.tla), every tie-break on every graph of the bound
+        mn = 4 if tier == 'quick' else 5
+        invs = ['OrderIsPermutation', 'ReportsItsWidth', 'NeverBelowTreewidth', 'OptimalOnSmallGraphs', 'ReplayAccepts']
+        r = run_tlc(work / 'minfill', 'MC_MinFill', f'INIT Init\nNEXT Next\nCONSTANTS MaxN = {mn}\n' + ''.join(f'INVARIANT {x}\n' for x in invs) + 'CHECK_DEADLOCK FALSE\n',
+                    workers=8, heap='4g', decode=False)
+        o.add_tlc(r)
+        o.extra['min_fill_machine_states'] = r.states
         mf_subopt = sum(1 for i, c in enumerate(cases) if c['mf']['out'] == 'ok' and c['mf']['w'] > verdicts[i + 1].get('tw', 99))
         o.extra['graphs_where_min_fill_is_suboptimal'] = mf_subopt
     return o
